@@ -4,7 +4,7 @@ import symtable
 
 from . import common
 
-STMT = dict(B='v = 0', A='v += 1', F='for v in ():\n    pass', W='with cm() as v:\n    pass', I='import v',
+STMT = dict(B='v = 0', A='v += 1', F='for v in ():\n    pass', W='with cm() as v:\n    pass', M='import v',
             D='def v():\n    pass', U='(v)')
 
 
@@ -18,7 +18,11 @@ def fun_body(occ, inner):
         lines.append('global v')
     if 'N' in occ:
         lines.append('nonlocal v')
-    for k in ('B', 'A', 'F', 'W', 'I', 'D', 'U'):
+    if 'Gi' in occ:
+        lines.append('if 1:\n    global v')
+    if 'Ni' in occ:
+        lines.append('if 1:\n    nonlocal v')
+    for k in ('B', 'A', 'F', 'W', 'M', 'D', 'U'):
         if k in occ:
             lines.append(STMT[k])
     if 'X' in occ:
@@ -57,7 +61,7 @@ def render_scope(K, O, i):
             lines.append(inner)
         return 'class s%d:\n%s' % (i + 1, _ind('\n'.join(lines) or 'pass', 1))
     if k == 'comprehension':
-        return '_c%d = [%s for %s in ()]' % (i + 1, 'v' if 'U' in occ else '0', 'v' if 'T' in occ else '_i')
+        return '_c%d = [%s for %s in %s]' % (i + 1, 'v' if 'U' in occ else '0', 'v' if 'T' in occ else '_i', 'v' if 'I' in occ else '()')
     raise common.MachineryError('bad scope kind %r' % k)
 
 
